@@ -69,6 +69,13 @@ Proof. exact @gen_takewhile_inclusive_stop. Qed.
 Theorem C16_utils_py_take_n :
   forall (A : Type) (n : nat) (l : list A), take_n l n = if Nat.leb n (length l) then Some (firstn n l) else None.
 Proof. exact @gen_take_n_spec. Qed.
+Theorem C16_utils_py_collect_until_generated_mass :
+  forall (A : Type) (thr : QArith_base.Q) (l : list (A * QArith_base.Q)),
+    (takewhile_inclusive (below thr) l = l /\ Forall (fun x => QArith_base.Qlt (snd x) thr) (removelast l)) \/
+    exists pre x rest, takewhile_inclusive (below thr) l = pre ++ [x] /\ l = pre ++ x :: rest /\ QArith_base.Qle thr (snd x) /\
+                       Forall (fun y => QArith_base.Qlt (snd y) thr) pre.
+Proof. exact @gen_collect_until_mass. Qed.
+Print Assumptions C16_utils_py_collect_until_generated_mass.
 Print Assumptions C16_utils_py_takewhile_inclusive.
 Print Assumptions C16_utils_py_take_n.
 
